@@ -585,6 +585,9 @@ def main_check(argv):
     sp.loader.exec_module(mod)
     if a.replay:
         return mod.replay(a.replay) if hasattr(mod, "replay") else generic_replay(a.prop, a.replay)
+    # one run per (property, source tree) at a time: runs share .work/<prop>, evidence and replays
+    runlock = Lock("run-%s-%s" % (a.prop, _SRC_TAG))
+    runlock.__enter__()
     ctx = Ctx(a.prop, a.tier if a.tier in ("quick", "thorough") else "quick", seed)
     try:
         return mod.run(ctx)
